@@ -81,6 +81,12 @@ def roundtrip(spec):
     if d:
         raise Violation('C01:fields:%s:%s%s' % (name, generalise(d), culprit(spec, d)),
                         '%s: decoded PDU differs from the encoded one at %s' % (name, d), case)
+    # ... and with the PDU as it was BEFORE encode() was called on it (encoding is not supposed to edit its subject)
+    d = deep_diff(g.build(spec), back)
+    if d:
+        raise Violation('C01:fields:%s:%s:encode-edited-its-subject' % (name, generalise(d)),
+                        '%s: decoded PDU differs at %s from the PDU as it was built (encode() changed the object it encoded, '
+                        'so comparing with that object afterwards shows nothing)' % (name, d), case)
     try:
         raw2 = back.encode()
     except Exception as exc:
